@@ -401,8 +401,23 @@ CLAIMED["C05"] = {
             "it was filed under, none for an ignored arrival (nothing_lost_or_invented, both importers); whole-import "
             "theorems for error, warning (first arrival per key), replace (last arrival at the first position; relations "
             "accumulate = known finding D12b) and create_unique (j-th later arrival under <key>_j, counters), starting "
-            "from any database (so for create_db and update alike). Partial: the whole-import grouping form of merge is "
-            "stated (merge_exact_seq_full) but only its one-step form is proved; GTF whole-import forms not proved. "
+            "from any database (so for create_db and update alike). merge, whole import (C05b: merge_exact_seq, "
+            "merge_exact_seq_rows, merge_seq_from): for keyed, tab-free arrivals and ANY force_merge_fields the stored rows "
+            "are one row per group (same key, same compared columns) in order of first arrival, the first group under the "
+            "key and the j-th later group under <key>_j recorded in duplicates, each row holding its representative's "
+            "coordinates, the comma-joined sorted set of the group's values in every exempt column and exactly the union "
+            "of the group's attribute values without repeats; the links are those of every arrival under its group's id; "
+            "the invariant continues from any database reached this way, so it covers update too. The unconditioned "
+            "statement merge_exact_seq_full is refuted by a proved witness (two columns containing tabs that print alike): "
+            "the tab-free condition is necessary. GTF importer, whole import and update (C05c, C05d): the same five "
+            "statements for populateGtf under any configuration whose id_spec keys the arrivals (plain attribute, default "
+            "GTF dict on explicit gene/transcript lines) and for files mixing keyed and auto-numbered lines - error aborts "
+            "at the first collision with the prefix imported, warning keeps first arrivals with exactly their links, "
+            "replace keeps last arrivals while links accumulate (D12b), create_unique files every arrival under <key>_j "
+            "with the GTF links (transcript, gene, gene->transcript) attached to the id it was filed under, merge yields "
+            "one row per group with the duplicates table and per-group links (error_exact_gtf, "
+            "warning_keeps_first_seq_gtf, replace_keeps_last_seq_gtf, create_unique_all_seq_gtf, merge_exact_seq_gtf, "
+            "populateGtf_mixed); update on a GTF database with inference off is the same import (update_gtf_noinfer). "
             "Correspondence end to end with colliding arrivals, all five strategies, force_merge_fields subsets, GFF3 and "
             "GTF, create_db and update; oracle: grouping reference incl. Parent links.",
     "note": "Trusted: Lean kernel + standard axioms; sqlite PRIMARY KEY / UPDATE modelled; merged values compared as sets "
